@@ -25,6 +25,7 @@ WORK = os.environ.get("VERIF_WORK") or os.path.join(os.path.dirname(os.path.dirn
 os.makedirs(WORK, exist_ok=True)
 
 _app_counter = itertools.count()
+_apps_built = 0
 _uuid_counter = itertools.count(1)
 
 
@@ -68,6 +69,11 @@ def mk_app(kind: str, app_id: str | None = None, db_path: str | None = None, **c
     with NoTracing():
         from pynenc import Pynenc
 
+        global _apps_built
+        _apps_built += 1
+        if _apps_built % 25 == 0:
+            import gc
+            gc.collect()      # pynenc never closes its SQLite connections explicitly: collect the ones of finished paths
         cv = dict(MEM if kind == "mem" else SQLITE)
         cv["app_id"] = app_id or f"vf{kind}{next(_app_counter)}"
         cv["logging_level"] = "critical"
